@@ -1,0 +1,137 @@
+//go:build verif
+
+// Contracts for contract-based deductive verification of package pilosa (see
+// /verif/DESIGN.md).  Comment-only file (build tag verif): a package clause and
+// //@ directives, no executable code.
+
+package pilosa
+
+// ---- C17: reducers ------------------------------------------------------------
+
+//@ contract (*ValCount).add props C17
+//@   requires vc != nil && -2305843009213693952 <= vc.Val && vc.Val <= 2305843009213693952 && -2305843009213693952 <= other.Val && other.Val <= 2305843009213693952
+//@   requires 0 <= vc.Count && vc.Count <= 2305843009213693952 && 0 <= other.Count && other.Count <= 2305843009213693952
+//@   ensures result.Val == vc.Val + other.Val && result.Count == vc.Count + other.Count
+//@   modifies nothing
+
+// The count returned with a Min (Max) value that several shards share is the
+// total across those shards (property C17).
+//@ contract (*ValCount).smaller props C17
+//@   requires vc != nil && 0 <= vc.Count && vc.Count <= 2305843009213693952 && 0 <= other.Count && other.Count <= 2305843009213693952
+//@   ensures vc.Count == 0 ==> result == other
+//@   ensures vc.Count > 0 && other.Count == 0 ==> result.Val == vc.Val && result.Count == vc.Count
+//@   ensures vc.Count > 0 && other.Count > 0 ==> result.Val == min(vc.Val, other.Val)
+//@   ensures vc.Count > 0 && other.Count > 0 && vc.Val < other.Val ==> result.Count == vc.Count
+//@   ensures vc.Count > 0 && other.Count > 0 && other.Val < vc.Val ==> result.Count == other.Count
+//@   ensures vc.Count > 0 && other.Count > 0 && other.Val == vc.Val ==> result.Count == vc.Count + other.Count
+//@   modifies nothing
+//@ contract (*ValCount).larger props C17
+//@   requires vc != nil && 0 <= vc.Count && vc.Count <= 2305843009213693952 && 0 <= other.Count && other.Count <= 2305843009213693952
+//@   ensures vc.Count == 0 ==> result == other
+//@   ensures vc.Count > 0 && other.Count == 0 ==> result.Val == vc.Val && result.Count == vc.Count
+//@   ensures vc.Count > 0 && other.Count > 0 ==> result.Val == max(vc.Val, other.Val)
+//@   ensures vc.Count > 0 && other.Count > 0 && vc.Val > other.Val ==> result.Count == vc.Count
+//@   ensures vc.Count > 0 && other.Count > 0 && other.Val > vc.Val ==> result.Count == other.Count
+//@   ensures vc.Count > 0 && other.Count > 0 && other.Val == vc.Val ==> result.Count == vc.Count + other.Count
+//@   modifies nothing
+
+// ---- C16: merge kernels ----------------------------------------------------------
+
+//@ spec sortedU64(a []uint64) = forall i, j :: 0 <= i && i < j && j < len(a) ==> a[i] < a[j]
+//@ spec memU64(a []uint64, v int) = exists i :: 0 <= i && i < len(a) && a[i] == v
+
+//@ contract (RowIDs).merge props C16,C17
+//@   requires sortedU64(r) && sortedU64(other) && limit >= 0 && len(r) <= 1000000000 && len(other) <= 1000000000
+//@   ensures sortedU64(result) && len(result) <= limit
+//@   ensures forall k :: 0 <= k && k < len(result) ==> memU64(r, result[k]) || memU64(other, result[k])
+//@   ensures unchanged(r) && unchanged(other)
+//@   loop 1 invariant 0 <= i && i <= len(r) && 0 <= j && j <= len(other) && len(result) <= limit && len(result) <= i + j && fresh(result) && unchanged(r) && unchanged(other)
+//@   loop 1 invariant forall k, l :: 0 <= k && k < l && l < len(result) ==> result[k] < result[l]
+//@   loop 1 invariant forall k :: 0 <= k && k < len(result) ==> (i < len(r) ==> result[k] < r[i]) && (j < len(other) ==> result[k] < other[j])
+//@   loop 1 invariant forall k :: 0 <= k && k < len(result) ==> memU64(r, result[k]) || memU64(other, result[k])
+//@   loop 1 decreases (len(r) - i) + (len(other) - j)
+//@   loop 2 invariant 0 <= i && i <= len(r) && 0 <= j && j <= len(other) && len(result) <= limit && len(result) <= i + j && fresh(result) && unchanged(r) && unchanged(other) && (i >= len(r) || j >= len(other) || len(result) >= limit)
+//@   loop 2 invariant forall k, l :: 0 <= k && k < l && l < len(result) ==> result[k] < result[l]
+//@   loop 2 invariant forall k :: 0 <= k && k < len(result) ==> (i < len(r) ==> result[k] < r[i]) && (j < len(other) ==> result[k] < other[j])
+//@   loop 2 invariant forall k :: 0 <= k && k < len(result) ==> memU64(r, result[k]) || memU64(other, result[k])
+//@   loop 2 decreases len(r) - i
+//@   loop 3 invariant 0 <= i && i <= len(r) && 0 <= j && j <= len(other) && len(result) <= limit && len(result) <= i + j && fresh(result) && unchanged(r) && unchanged(other) && (i >= len(r) || len(result) >= limit)
+//@   loop 3 invariant forall k, l :: 0 <= k && k < l && l < len(result) ==> result[k] < result[l]
+//@   loop 3 invariant forall k :: 0 <= k && k < len(result) ==> (j < len(other) ==> result[k] < other[j])
+//@   loop 3 invariant forall k :: 0 <= k && k < len(result) ==> memU64(r, result[k]) || memU64(other, result[k])
+//@   loop 3 decreases len(other) - j
+
+// ---- C14: integer field arithmetic ------------------------------------------------
+
+//@ contract bitDepth props C14
+//@   ensures 0 <= result && result <= 63
+//@   ensures result < 63 ==> v < pow2(result)
+//@   ensures result > 0 ==> v >= pow2(result - 1)
+//@   modifies nothing
+//@   loop 1 invariant 0 <= i && i <= 63 && (i > 0 ==> v >= pow2(i - 1))
+//@   loop 1 decreases 63 - i
+
+//@ contract bitDepthInt64 props C14
+//@   requires v > -9223372036854775808
+//@   ensures 0 <= result && result <= 63
+//@   ensures result < 63 ==> abs(v) < pow2(result)
+//@   ensures result > 0 ==> abs(v) >= pow2(result - 1)
+//@   modifies nothing
+
+//@ spec bsigOK(b *bsiGroup) = b != nil && b.BitDepth <= 62 && -4611686018427387904 <= b.Base && b.Base <= 4611686018427387904
+//@ contract (*bsiGroup).bitDepthMin props C14
+//@   requires bsigOK(b)
+//@   ensures result == b.Base - pow2(b.BitDepth) + 1
+//@   modifies nothing
+//@ contract (*bsiGroup).bitDepthMax props C14
+//@   requires bsigOK(b)
+//@   ensures result == b.Base + pow2(b.BitDepth) - 1
+//@   modifies nothing
+
+// baseValue: predicate relative to Base for one comparison.  Stated over the
+// values v the bit depth can hold (lo(b) <= v <= hi(b)): comparing v with the
+// written predicate agrees with comparing v-Base with the returned base value
+// (or the whole range is excluded when outOfRange).
+//@ spec bdLo(b *bsiGroup) = b.Base - pow2(b.BitDepth) + 1
+//@ spec bdHi(b *bsiGroup) = b.Base + pow2(b.BitDepth) - 1
+//@ contract (*bsiGroup).baseValue props C14
+//@   requires bsigOK(b)
+//@   ensures (op == pql.GTE) && !outOfRange ==> (forall v :: bdLo(b) <= v && v <= bdHi(b) ==> ((v >= value) <==> (v - b.Base >= baseValue)))
+//@   ensures (op == pql.GT) && !outOfRange && value >= bdLo(b) ==> (forall v :: bdLo(b) <= v && v <= bdHi(b) ==> ((v > value) <==> (v - b.Base > baseValue)))
+//@   ensures (op == pql.GT || op == pql.GTE) && outOfRange ==> (forall v :: bdLo(b) <= v && v <= bdHi(b) ==> !(v >= value))
+//@   ensures (op == pql.LTE) && !outOfRange ==> (forall v :: bdLo(b) <= v && v <= bdHi(b) ==> ((v <= value) <==> (v - b.Base <= baseValue)))
+//@   ensures (op == pql.LT) && !outOfRange && value <= bdHi(b) ==> (forall v :: bdLo(b) <= v && v <= bdHi(b) ==> ((v < value) <==> (v - b.Base < baseValue)))
+//@   ensures (op == pql.LT || op == pql.LTE) && outOfRange ==> (forall v :: bdLo(b) <= v && v <= bdHi(b) ==> !(v <= value))
+//@   ensures (op == pql.EQ || op == pql.NEQ) && !outOfRange ==> baseValue == value - b.Base && bdLo(b) <= value && value <= bdHi(b)
+//@   ensures (op == pql.EQ || op == pql.NEQ) && outOfRange ==> (forall v :: bdLo(b) <= v && v <= bdHi(b) ==> v != value)
+//@   ensures !outOfRange ==> -pow2(b.BitDepth) < baseValue && baseValue < pow2(b.BitDepth)
+//@   modifies nothing
+
+// ---- C20: replica sets -------------------------------------------------------------
+
+//@ contract (Hasher).Hash trusted pure props C20
+//@   requires n >= 1
+//@   ensures 0 <= result && result < n
+
+// partitionNodes: min(max(ReplicaN,1), len(nodes)) distinct ring positions
+// starting at the hashed node index.
+//@ contract (*cluster).partitionNodes props C20
+//@   requires c != nil && c.Hasher != nil && len(c.nodes) >= 1 && len(c.nodes) <= 1000000 && c.ReplicaN >= 0
+//@   ensures len(result) == min(max(c.ReplicaN, 1), len(c.nodes))
+//@   ensures exists h :: 0 <= h && h < len(c.nodes) && (forall i :: 0 <= i && i < len(result) ==> result[i] == c.nodes[(h + i) % len(c.nodes)])
+//@   ensures fresh(result)
+//@   modifies nothing
+//@   loop 1 invariant 0 <= i && i <= replicaN && len(nodes) == replicaN && fresh(nodes) && nodes.off == 0 && 0 <= nodeIndex && nodeIndex < len(c.nodes) && replicaN == min(max(c.ReplicaN, 1), len(c.nodes))
+//@   loop 1 invariant forall k :: 0 <= k && k < i ==> nodes[k] == c.nodes[(nodeIndex + k) % len(c.nodes)]
+//@   loop 1 decreases replicaN - i
+
+// ---- C25: attribute block diff ------------------------------------------------------
+
+// baseValueBetween: the clamped interval, relative to Base, is exactly the part
+// of [lo,hi] that the bit depth can represent.
+//@ contract (*bsiGroup).baseValueBetween props C14
+//@   requires bsigOK(b) && lo <= hi
+//@   ensures outOfRange <==> (hi < b.Base - pow2(b.BitDepth) + 1 || lo > b.Base + pow2(b.BitDepth) - 1)
+//@   ensures !outOfRange ==> baseValueLo == max(lo, b.Base - pow2(b.BitDepth) + 1) - b.Base && baseValueHi == min(hi, b.Base + pow2(b.BitDepth) - 1) - b.Base
+//@   ensures !outOfRange ==> -pow2(b.BitDepth) < baseValueLo && baseValueLo <= baseValueHi && baseValueHi < pow2(b.BitDepth)
+//@   modifies nothing
